@@ -132,6 +132,69 @@ def run(report, p):
             r1.check(bool(oks) and not bad, cf, call, "traversal does not use the effective ignore patterns (latest generation + -i + -ii): " + (bad[0] if bad else "no origin"), witness=show(oks[0][2])[:300] if oks else None)
             spec_of_func.setdefault(cf.qual, []).extend(id(s[4]) for ok, w, s in oks if s[0] == "call")
 
+    # ------------------------------------------------------------------ R12.12
+    r12 = report.rule(
+        "R12.12",
+        "inside the traversal the pathspec it was given is read-only: the parameter is never augmented (`spec += ...` calls PathSpec.__iadd__, which extends the "
+        "CALLER's object in place - the one spec every folder of the run is matched with) or mutated through its attributes; patterns that hold for a part of the tree only "
+        "would otherwise leak into every folder traversed after it",
+        1,
+    )
+    for t in travs:
+        spec_param = t.params[1] if len(t.params) > 1 else None
+        if spec_param is None:
+            continue
+        r12.instance(t, t.node, f"{t.name}({spec_param})")
+        bad12 = None
+        for n in walk_no_nested(t.node):
+            if isinstance(n, ast.AugAssign) and isinstance(n.target, ast.Name) and n.target.id == spec_param:
+                bad12 = (n, f"`{norm(n)[:70]}` extends the pathspec object in place")
+            elif isinstance(n, ast.Call) and isinstance(n.func, ast.Attribute) and n.func.attr in ("append", "extend", "insert", "remove", "clear", "pop", "update", "add", "sort", "reverse", "__iadd__") and any(isinstance(x, ast.Name) and x.id == spec_param for x in ast.walk(n.func.value)):
+                bad12 = (n, f"`{norm(n)[:70]}` mutates the pathspec object")
+            elif isinstance(n, (ast.Assign, ast.AugAssign)) and any(isinstance(tg_, (ast.Attribute, ast.Subscript)) and any(isinstance(x, ast.Name) and x.id == spec_param for x in ast.walk(tg_)) for tg_ in (n.targets if isinstance(n, ast.Assign) else [n.target])):
+                bad12 = (n, f"`{norm(n)[:70]}` stores into the pathspec object")
+        if bad12:
+            r12.check(False, t, bad12[0], f"{bad12[1]}: the object is shared by the whole run (the recursion hands the same object on, the command matches missing files with it), so what is added for one folder - e.g. the patterns of a nested history - applies to every folder traversed afterwards: files there are silently left out of every history although no pattern in force names them", construct="pathspec modified inside the traversal")
+        else:
+            r12.check(True, t, t.node, "")
+
+    # ------------------------------------------------------------------ R12.13
+    r13 = report.rule(
+        "R12.13",
+        "one spelling per path at every ignore match: the traversal and the missing-file filter hand PathSpec.match_file the same string for the same path - "
+        "relpath(<path>, <root>) as it is, not decorated on one side (a trailing separator for folders, a prefix, a normalisation): a path that the traversal skips under "
+        "a pattern but the filter does not recognise as ignored is reported missing (and the other way round: recorded although ignored)",
+        2,
+    )
+    sites13 = []
+    for fq, f in sorted(p.funcs.items()):
+        if fq not in shipped_reach and fq not in trav_q:
+            continue
+        for call, tg in p.calls[fq]:
+            if isinstance(call.func, ast.Attribute) and call.func.attr == "match_file" and call.args and any("pathspec" in t.lower() or t.startswith("unk:") for t in tg):
+                shapes = []
+                for o in pr.origins(call.args[0], f):
+                    for a_ in alts(pr.inline(o, depth=1, calls=False)):
+                        if is_call(a_, "os.path.relpath"):
+                            shapes.append(("plain", a_))
+                        elif a_[0] == "op" and (str(a_[1]).startswith("aug") or (a_[1] in ("Add", "fstring", "Mod", "format") and any(is_call(x, "os.path.relpath") for x in subterms(a_)))):
+                            shapes.append(("decorated", a_))
+                        elif a_[0] == "call" and any(is_call(x, "os.path.relpath") for x in subterms(a_)) and not is_call(a_, "os.path.relpath"):
+                            shapes.append(("decorated", a_))
+                        else:
+                            shapes.append(("other", a_))
+                sites13.append((f, call, shapes))
+                r13.instance(f, call, norm(call)[:90])
+    plain_sites = [x for x in sites13 if x[2] and all(k == "plain" for k, _ in x[2])]
+    for f, call, shapes in sites13:
+        dec = [a_ for k, a_ in shapes if k == "decorated"]
+        if dec and plain_sites:
+            r13.check(False, f, call, f"`{norm(call)[:70]}` matches `{show(dec[0])[:90]}` while {plain_sites[0][0].name} matches the bare relative path: the two sites disagree on which paths a pattern covers - a recorded folder that a directory pattern (`scratch/`) now ignores is skipped by one and reported as `missing file(s)` (exit 10) by the other", construct=f"{f.name}: decorated path at the ignore match")
+        elif dec:
+            raise AnalysisError(f"{f.loc(call)}: every ignore match decorates the relative path; whether they agree is not decided by this rule")
+        else:
+            r13.check(True, f, call, "")
+
     # ------------------------------------------------------------------ R12.2
     r2 = report.rule("R12.2", "no ignore option is dropped: the -i / -ii parameter of every shipped command reaches an MHLIgnoreSpec construction on every sub-command path it is passed to", 8)
     for name, c in cmds.items():
